@@ -275,7 +275,7 @@ def build(x):
     bev.append(bc)
     cn = x.fn(PT + "vehicle/default/bev.rs", "impl VehicleType for BEV :: fn consume_energy")
     cn.rewrite(r"\A(\s*)fn ", r"\1pub fn ", 0, 1, rule="R3")
-    cn.rewrite(r"&BEV::ENERGY_FEATURE_NAME\.into\(\)", "&verif_string(BEV::ENERGY_FEATURE_NAME)", 1, 1, rule="R-into")
+    cn.rewrite(r"&(BEV::\w+_FEATURE_NAME)\.into\(\)", r"&verif_string(\1)", 1, None, rule="R-into")
     cn.name_return("r")
     cn.add_spec("""        requires self.prediction_model_record.wf(), self.battery_capacity@ != 0real,
                  sm_slot(state_model, BEV::ENERGY_FEATURE_NAME@) != sm_slot(state_model, BEV::SOC_FEATURE_NAME@),
@@ -293,7 +293,7 @@ def build(x):
     bev.append(cn)
     bs = x.fn(PT + "vehicle/default/bev.rs", "impl VehicleType for BEV :: fn best_case_energy_state")
     bs.rewrite(r"\A(\s*)fn ", r"\1pub fn ", 0, 1, rule="R3")
-    bs.rewrite(r"&BEV::ENERGY_FEATURE_NAME\.into\(\)", "&verif_string(BEV::ENERGY_FEATURE_NAME)", 1, 1, rule="R-into")
+    bs.rewrite(r"&(BEV::\w+_FEATURE_NAME)\.into\(\)", r"&verif_string(\1)", 1, None, rule="R-into")
     bs.name_return("r")
     bs.add_spec("""        requires self.battery_capacity@ != 0real,
                  sm_slot(state_model, BEV::ENERGY_FEATURE_NAME@) != sm_slot(state_model, BEV::SOC_FEATURE_NAME@),
@@ -322,7 +322,7 @@ def build(x):
     ice.append(ib)
     ic = x.fn(PT + "vehicle/default/ice.rs", "impl VehicleType for ICE :: fn consume_energy")
     ic.rewrite(r"\A(\s*)fn ", r"\1pub fn ", 0, 1, rule="R3")
-    ic.rewrite(r"&ICE::ENERGY_FEATURE_NAME\.into\(\)", "&verif_string(ICE::ENERGY_FEATURE_NAME)", 1, 1, rule="R-into")
+    ic.rewrite(r"&(ICE::\w+_FEATURE_NAME)\.into\(\)", r"&verif_string(\1)", 1, None, rule="R-into")
     ic.name_return("r")
     ic.add_spec("""        requires self.prediction_model_record.wf(),
         ensures final(state)@.len() == old(state)@.len(),
@@ -337,7 +337,7 @@ def build(x):
     ice.append(ic)
     ibs = x.fn(PT + "vehicle/default/ice.rs", "impl VehicleType for ICE :: fn best_case_energy_state")
     ibs.rewrite(r"\A(\s*)fn ", r"\1pub fn ", 0, 1, rule="R3")
-    ibs.rewrite(r"&ICE::ENERGY_FEATURE_NAME\.into\(\)", "&verif_string(ICE::ENERGY_FEATURE_NAME)", 1, 1, rule="R-into")
+    ibs.rewrite(r"&(ICE::\w+_FEATURE_NAME)\.into\(\)", r"&verif_string(\1)", 1, None, rule="R-into")
     ibs.name_return("r")
     ibs.add_spec("""        ensures final(state)@.len() == old(state)@.len(),
             r is Ok ==> ({
